@@ -11,6 +11,10 @@ import (
 	bcrpb "github.com/google/fhir/go/proto/google/fhir/proto/r4/core/resources/bundle_and_contained_resource_go_proto"
 	ppb "github.com/google/fhir/go/proto/google/fhir/proto/r4/core/resources/patient_go_proto"
 	qpb "github.com/google/fhir/go/proto/google/fhir/proto/r4/core/resources/questionnaire_go_proto"
+	encpb "github.com/google/fhir/go/proto/google/fhir/proto/r4/core/resources/encounter_go_proto"
+	locpb "github.com/google/fhir/go/proto/google/fhir/proto/r4/core/resources/location_go_proto"
+	orgpb "github.com/google/fhir/go/proto/google/fhir/proto/r4/core/resources/organization_go_proto"
+	taskpb "github.com/google/fhir/go/proto/google/fhir/proto/r4/core/resources/task_go_proto"
 	s3dt "github.com/google/fhir/go/proto/google/fhir/proto/stu3/datatypes_go_proto"
 	s3res "github.com/google/fhir/go/proto/google/fhir/proto/stu3/resources_go_proto"
 	"github.com/verily-src/fhirpath-go/fhirpath/compopts"
@@ -1010,6 +1014,26 @@ func c18Fixed(env *core.Env, totality bool) {
 		{"Replace(name by an STU3 HumanName)", func(r fhir.Resource) error { return patch.Replace(r, "Patient.name[0]", &s3dt.HumanName{}) }, false, false},
 		{"Add(contained, an STU3 Patient)", func(r fhir.Resource) error { return patch.Add(r, "Patient", "contained", &s3res.Patient{}, &patch.Options{}) }, false, false},
 		{"Insert(name, an STU3 HumanName)", func(r fhir.Resource) error { return patch.Insert(r, "Patient.name", &s3dt.HumanName{}, 0) }, false, false},
+		{"Insert(children of one item)", func(r fhir.Resource) error { return patch.Insert(r, "Patient.name[0].children()", &dtpb.String{Value: "x"}, 2) }, false, false},
+		{"Insert(children of one item, further)", func(r fhir.Resource) error { return patch.Insert(r, "Patient.name[0].children()", &dtpb.String{Value: "x"}, 3) }, false, false},
+		{"Insert(descendants)", func(r fhir.Resource) error { return patch.Insert(r, "Patient.name[0].descendants()", &dtpb.String{Value: "x"}, 4) }, false, false},
+		{"Insert(children of the resource)", func(r fhir.Resource) error { return patch.Insert(r, "Patient.children()", hn, 7) }, false, false},
+		{"Insert(two lists)", func(r fhir.Resource) error { return patch.Insert(r, "Patient.name.given", &dtpb.String{Value: "x"}, 3) }, false, false},
+		{"Replace(children of one item)", func(r fhir.Resource) error { return patch.Replace(r, "Patient.name[0].children()", &dtpb.String{Value: "x"}) }, false, false},
+		{"Insert(children of a name with one given and two prefixes)", func(r fhir.Resource) error {
+			p := &ppb.Patient{Name: []*dtpb.HumanName{{Given: []*dtpb.String{{Value: "g"}}, Prefix: []*dtpb.String{{Value: "p1"}, {Value: "p2"}}}}}
+			e1 := patch.Insert(p, "Patient.name[0].children()", &dtpb.String{Value: "x"}, 2)
+			e2 := patch.Insert(p, "Patient.name[0].children()", &dtpb.String{Value: "x"}, 3)
+			e3 := patch.Insert(p, "Patient.name[0].descendants()", &dtpb.String{Value: "x"}, 3)
+			e4 := patch.Insert(p, "Patient.name[0].children()", &dtpb.String{Value: "x"}, 1)
+			for _, e := range []error{e1, e2, e3} {
+				if e == nil {
+					return nil
+				}
+			}
+			_ = e4
+			return e1
+		}, false, false},
 		{"Delete(malformed escape)", func(r fhir.Resource) error { return patch.Delete(r, "Patient.name.where(family = '\\u12')") }, false, true},
 	}
 	for _, c := range cases {
@@ -1335,6 +1359,48 @@ func c18OptionsAndRanges(env *core.Env) {
 			}
 			if gm, ok := got.Raw[0].(proto.Message); !ok || !proto.Equal(gm, c.val) {
 				env.Violatef("C18/replace/equal-value-not-written", "patch.Replace(`%s`) of a %s returned nil, but the element is still %s (expected %s)", c.path, c.name, trunc(fmt.Sprint(got.Raw[0]), 100), trunc(fmt.Sprint(c.val), 100))
+			}
+		}
+	}
+	// (a3) populated single elements whose FHIR name needs the `_value` spelling in the protos (class, for), and values whose
+	// type shares only its short name with the element's type
+	{
+		enc := func() fhir.Resource {
+			return &encpb.Encounter{ClassValue: &dtpb.Coding{Code: &dtpb.Code{Value: "AMB"}}, Location: []*encpb.Encounter_Location{{Location: &dtpb.Reference{Display: &dtpb.String{Value: "ward"}}}}}
+		}
+		type ac struct {
+			name string
+			mk   func() fhir.Resource
+			f    func(r fhir.Resource) error
+		}
+		for _, c := range []ac{
+			{"Add(Encounter, class, Coding) on a populated class", enc, func(r fhir.Resource) error {
+				return patch.Add(r, "Encounter", "class", &dtpb.Coding{Code: &dtpb.Code{Value: "IMP"}}, &patch.Options{})
+			}},
+			{"Add(Task, for, Reference) on a populated for", func() fhir.Resource { return &taskpb.Task{ForValue: &dtpb.Reference{Display: &dtpb.String{Value: "a"}}} }, func(r fhir.Resource) error {
+				return patch.Add(r, "Task", "for", &dtpb.Reference{Display: &dtpb.String{Value: "b"}}, &patch.Options{})
+			}},
+			{"Replace(Encounter.location[0], a Location resource)", enc, func(r fhir.Resource) error { return patch.Replace(r, "Encounter.location[0]", &locpb.Location{}) }},
+			{"Insert(Encounter.location, a Location resource)", enc, func(r fhir.Resource) error { return patch.Insert(r, "Encounter.location", &locpb.Location{}, 0) }},
+			{"Add(Encounter, location, a Location resource)", enc, func(r fhir.Resource) error { return patch.Add(r, "Encounter", "location", &locpb.Location{}, &patch.Options{}) }},
+			{"Add(Patient, contact, an Organization contact)", func() fhir.Resource { return mkp() }, func(r fhir.Resource) error { return patch.Add(r, "Patient", "contact", &orgpb.Organization_Contact{}, &patch.Options{}) }},
+		} {
+			r := c.mk()
+			before := protoBytes(r)
+			var perr error
+			out := env.Guard("patch."+c.name, func() { perr = c.f(r) })
+			env.Eval(1)
+			env.Cover("reserved-name-and-same-short-name")
+			if out.Panicked || out.Dead {
+				if !out.Dead {
+					env.Violatef("C18/panic@"+out.Site+"/"+core.NormMsg(out.PanicMsg), "patch.%s panicked: %s", c.name, out.PanicMsg)
+				}
+				continue
+			}
+			if perr == nil {
+				env.Violatef("C18/fixed/succeeded-on-invalid-operation", "patch.%s returned nil; resource now %s", c.name, trunc(jsonOf(r), 200))
+			} else if protoBytes(r) != before {
+				env.Violatef("C18/fixed/mutated", "patch.%s returned %v but the resource changed", c.name, perr)
 			}
 		}
 	}
